@@ -49,6 +49,7 @@ type interpreter struct {
 	shadows            map[interface{}]*shadow
 	curFrame           *frame
 	initDirect         bool
+	mutexes            map[*value]*mutexState
 }
 
 type deferred struct {
